@@ -19,14 +19,15 @@ variable {κ : Type} [LinearOrder κ] (mkKey : Nat → Nat → κ)
 variable {α : Type} [Add α] [Mul α] [OfNat α 0] [OfNat α 1] [DecidableEq α]
 
 /-- the rule by which `formtran` fills the row of the DOF `p` (an index into the `[id, dof]` rows; `t o m q s` list
-the DOF of those sets, `t_a q_a` the columns of the t- and q-set DOF within the a-set): -/
-def TranRow (w : Nat) (t o m q s t_a q_a : List Nat) (gotM goqM : M α) (mRows : List (List α))
+the DOF of those sets, `t_a q_a` the columns of the t- and q-set DOF within the a-set; for an m-set DOF the row
+is row `k` of the m-set block `mRows`, which belongs to GM row `pvm[k]`): -/
+def TranRow (w : Nat) (t o m q s t_a q_a : List Nat) (gotM goqM : M α) (pvm : List Nat) (mRows : List (List α))
     (p : Nat) (row : List α) : Prop :=
   (∃ (i c : Nat), t[i]? = some p ∧ t_a[i]? = some c ∧ row = unitRow w c) ∨
   (∃ (i : Nat) (g : List α), o[i]? = some p ∧ gotM.r[i]? = some g ∧
       ((goqM.c ≠ 0 ∧ ∃ qr, goqM.r[i]? = some qr ∧ ORow w t_a q_a g qr row) ∨
        (goqM.c = 0 ∧ ORow w t_a [] g [] row))) ∨
-  (∃ (i : Nat), m[i]? = some p ∧ row ∈ mRows ∧ row.length = w) ∨
+  (∃ (i k : Nat), m[i]? = some p ∧ pvm[k]? = some i ∧ mRows[k]? = some row ∧ row.length = w) ∨
   (∃ (i c : Nat), q[i]? = some p ∧ q_a[i]? = some c ∧ row = unitRow w c) ∨
   (∃ (i : Nat), s[i]? = some p ∧ row = zeroRow w)
 
@@ -42,13 +43,18 @@ theorem formtran_partition_identity (mk : Masks) (tbl : List Row) (got goq gm : 
     (hgen : pvdof.all (fun i => a[i]? == some true) = false)
     (hta : setPos tbl mk.a mk.t = .ok t_a) (hqa : setPos tbl mk.a mk.q = .ok q_a)
     (hdis : ∀ c ∈ t_a, c ∉ q_a) :
-    ∃ (t o m q s : List Nat) (gotM goqM : M α) (mRows : List (List α)),
+    ∃ (t o m q s : List Nat) (gotM goqM : M α) (pvm : List Nat) (mRows : List (List α)),
       setPos tbl mk.g mk.t = .ok t ∧ setPos tbl mk.g mk.o = .ok o ∧ setPos tbl mk.g mk.q = .ok q ∧
-      setPos tbl mk.g mk.s = .ok s ∧ (mRows ≠ [] → setPos tbl mk.g mk.m = .ok m) ∧
+      setPos tbl mk.g mk.s = .ok s ∧
+      (mRows ≠ [] → setPos tbl mk.g mk.m = .ok m ∧ ∃ (gmM gmSel : M α) (t_n o_n q_n : List Nat),
+        gm = some gmM ∧ List.Forall₂ (fun i y => gmM.r[i]? = some y) pvm gmSel.r ∧
+        setPos tbl mk.n mk.t = .ok t_n ∧ setPos tbl mk.n mk.o = .ok o_n ∧ setPos tbl mk.n mk.q = .ok q_n ∧
+        mBlock gmSel gotM goqM gotM.c goqM.c t_a q_a t_n o_n q_n = .ok mRows) ∧
       (∀ g, got = some g → gotM = g) ∧ (∀ g, goq = some g → goqM = g) ∧
+      (got = none → ∀ r ∈ gotM.r, r.length = gotM.c) ∧ (goq = none → ∀ r ∈ goqM.r, r.length = goqM.c) ∧
       out.c = gotM.c + goqM.c ∧
       List.Forall₂ (fun d row => ∃ p, (iddofOf mkKey tbl)[p]? = some (mkKey d.1 d.2) ∧
-        TranRow (gotM.c + goqM.c) t o m q s t_a q_a gotM goqM mRows p row) dof out.r := by
+        TranRow (gotM.c + goqM.c) t o m q s t_a q_a gotM goqM pvm mRows p row) dof out.r := by
   unfold formtranUp at h
   rw [hpv, hta, hqa, ha] at h
   obtain ⟨pd, hpd, h⟩ := bind_ok h
@@ -67,7 +73,8 @@ theorem formtran_partition_identity (mk : Masks) (tbl : List Row) (got goq gm : 
   obtain ⟨o', ho', h⟩ := bind_ok h
   simp only [Except.ok.injEq, Prod.mk.injEq] at h
   obtain ⟨rfl, _⟩ := h
-  obtain ⟨t, o, q, s, ht, ho, hq, hs, hft, hfo, hfq, hfs, hgot, hgoq, hpm, hpmok⟩ := upSelect_spec mkKey hx
+  obtain ⟨t, o, q, s, ht, ho, hq, hs, hft, hfo, hfq, hfs, hgot, hgoq, hgot0, hgoq0, hpm, hpmok, htn⟩ :=
+    upSelect_spec mkKey hx
   -- distinct columns
   have hnt : t_a.Nodup := by
     unfold setPos at hta
@@ -96,32 +103,38 @@ theorem formtran_partition_identity (mk : Masks) (tbl : List Row) (got goq gm : 
   simp only [Except.ok.injEq] at hrows
   let w := x.gotM.c + x.goqM.c
   -- the m-set part
-  obtain ⟨m, hmset, hfm⟩ : ∃ m : List Nat, (mRows ≠ [] → setPos tbl mk.g mk.m = .ok m) ∧
-      List.Forall₂ (fun p row => ∃ (i : Nat), m[i]? = some p ∧ row ∈ mRows ∧ row.length = w)
+  obtain ⟨m, pvm, hmset, hfm⟩ : ∃ (m pvm : List Nat),
+      (mRows ≠ [] → setPos tbl mk.g mk.m = .ok m ∧ ∃ (gmM gmSel : M α) (t_n o_n q_n : List Nat),
+        gm = some gmM ∧ List.Forall₂ (fun i y => gmM.r[i]? = some y) pvm gmSel.r ∧
+        setPos tbl mk.n mk.t = .ok t_n ∧ setPos tbl mk.n mk.o = .ok o_n ∧ setPos tbl mk.n mk.q = .ok q_n ∧
+        mBlock gmSel x.gotM x.goqM x.gotM.c x.goqM.c t_a q_a t_n o_n q_n = .ok mRows) ∧
+      List.Forall₂ (fun p row => ∃ (i k : Nat), m[i]? = some p ∧ pvm[k]? = some i ∧ mRows[k]? = some row ∧
+          row.length = w)
         (match x.pm with | some y => y.1 | none => []) mRows := by
     cases hpmv : x.pm with
     | none =>
         rw [hpmv] at hmR
         simp only [pure, Except.pure, Except.ok.injEq] at hmR
         subst hmR
-        exact ⟨[], fun hne => absurd rfl hne, .nil⟩
+        exact ⟨[], [], fun hne => absurd rfl hne, .nil⟩
     | some y =>
         obtain ⟨v, hv⟩ := hpmok
         rw [hv] at hpm
         simp only at hpm
         rw [hpmv] at hpm
         rw [← hpm] at hv
+        obtain ⟨htn1, htn2, htn3⟩ := htn y hpmv
         obtain ⟨m', g'⟩ := y
-        obtain ⟨m, gmM, pv, hm, _, hfm, _, hfg⟩ := procMset_spec mkKey hv
+        obtain ⟨m, gmM, pv, hm, hgm, hfm, _, hfg⟩ := procMset_spec mkKey hv
         rw [hpmv] at hmR
         simp only at hmR
         have hl := mBlock_length hmR
-        refine ⟨m, fun _ => hm, ?_⟩
+        refine ⟨m, pv, fun _ => ⟨hm, gmM, g', _, _, _, hgm, hfg, htn1, htn2, htn3, hmR⟩, ?_⟩
         simp only
         apply forall₂_of_getElem? (by rw [hl, ← hfg.length_eq, hfm.length_eq])
         intro k p row hp hrow
-        obtain ⟨i, _, hi⟩ := forall₂_getElem?' hfm k p hp
-        exact ⟨i, hi, List.mem_of_getElem? hrow, mBlock_row_length hmR row (List.mem_of_getElem? hrow)⟩
+        obtain ⟨i, hik, hi⟩ := forall₂_getElem?' hfm k p hp
+        exact ⟨i, k, hi, hik, hrow, mBlock_row_length hmR row (List.mem_of_getElem? hrow)⟩
   have hT := forall₂_join hft (eyeBlock_spec htR hnt)
   have hO := forall₂_join hfo (oBlock_spec hoR hnt hnq hdis)
   have hQ := forall₂_join hfq (eyeBlock_spec hqR hnq)
@@ -133,7 +146,7 @@ theorem formtran_partition_identity (mk : Masks) (tbl : List Row) (got goq gm : 
     rw [hp] at hp'; simp only [Option.some.injEq] at hp'; subst hp'
     obtain ⟨i, _, hi⟩ := forall₂_getElem?' hfs k p hp
     exact ⟨i, hi, rfl⟩
-  have hall : List.Forall₂ (TranRow w t o m q s t_a q_a x.gotM x.goqM mRows) x.sets rows := by
+  have hall : List.Forall₂ (TranRow w t o m q s t_a q_a x.gotM x.goqM pvm mRows) x.sets rows := by
     rw [← hrows]
     unfold UpSel.sets
     refine List.rel_append (List.rel_append (List.rel_append (List.rel_append ?_ ?_) ?_) ?_) ?_
@@ -144,7 +157,7 @@ theorem formtran_partition_identity (mk : Masks) (tbl : List Row) (got goq gm : 
     · exact hS.imp fun p row h => Or.inr (Or.inr (Or.inr (Or.inr h)))
   have hre := reorder_spec ho' hall.length_eq.symm
     (by rw [mkdofpv_lengths hpv]; simp [dofRows])
-  refine ⟨t, o, m, q, s, x.gotM, x.goqM, mRows, ht, ho, hq, hs, hmset, hgot, hgoq, hre.1, ?_⟩
+  refine ⟨t, o, m, q, s, x.gotM, x.goqM, pvm, mRows, ht, ho, hq, hs, hmset, hgot, hgoq, hgot0, hgoq0, hre.1, ?_⟩
   have h2 := hre.2
   unfold dofRows at h2
   rw [List.forall₂_map_left_iff] at h2
@@ -223,14 +236,14 @@ theorem formtran_columns_are_target_set (mk : Masks) (tbl : List Row) (got goq g
         obtain ⟨i, _, _, hr⟩ := forall₂_getElem?' h2 k row hk
         rw [hr, unitRow_length, h1]
   | false =>
-      obtain ⟨t, o, m, q, s, gotM, goqM, mRows, _, _, _, _, _, hg1, hg2, hcw, hall⟩ :=
+      obtain ⟨t, o, m, q, s, gotM, goqM, pvm, mRows, _, _, _, _, _, hg1, hg2, _, _, hcw, hall⟩ :=
         formtran_partition_identity mkKey mk tbl got goq gm req out dof pvdof a t_a q_a h hpv ha hc hta hqa hdis
       refine ⟨hall.length_eq.symm, ?_, fun hf => (by cases hf), fun _ => ⟨gotM, goqM, hg1, hg2, hcw⟩⟩
       intro row hrow
       obtain ⟨k, hk⟩ := List.getElem?_of_mem hrow
       obtain ⟨d, _, p, _, hT⟩ := forall₂_getElem?' hall k row hk
       rw [hcw]
-      rcases hT with ⟨_, _, _, _, hr⟩ | ⟨_, _, _, _, hr⟩ | ⟨_, _, _, hr⟩ | ⟨_, _, _, _, hr⟩ | ⟨_, _, hr⟩
+      rcases hT with ⟨_, _, _, _, hr⟩ | ⟨_, _, _, _, hr⟩ | ⟨_, _, _, _, _, hr⟩ | ⟨_, _, _, _, hr⟩ | ⟨_, _, hr⟩
       · rw [hr, unitRow_length]
       · rcases hr with ⟨_, _, _, hO⟩ | ⟨_, hO⟩ <;> exact hO.1
       · exact hr
